@@ -114,7 +114,9 @@ void rnstop_c (void)
 __CPROVER_requires (grammar == gh_g && CURR != NULL && CURR->order == NULL && CURR->rhs_len >= 0 && CURR->rhs_len <= 8)
 __CPROVER_requires ((gh_first && gh_ns_calls == 1) ? (CURR->rhs_len == 2 && gh_stops == 0) : (MAIN_STARTED && CURR->rhs_len == gh_rl && gh_stops == (gh_first ? 1 : 0)))
 __CPROVER_assigns (CURR->order, gh_stops)
-__CPROVER_ensures (CURR->rhs_len == 0 ? CURR->order == NULL : __CPROVER_is_fresh (CURR->order, (size_t) CURR->rhs_len * sizeof (int)))
+/* (T.rule.stop: for an empty right-hand side the order array is an empty object - some non-NULL pointer that must not be dereferenced) */
+__CPROVER_ensures (CURR->rhs_len == 0 || __CPROVER_is_fresh (CURR->order, (size_t) CURR->rhs_len * sizeof (int)))
+__CPROVER_ensures (CURR->order != NULL)
 __CPROVER_ensures (GH_ALL8 (ORD_UNSET) && gh_stops == __CPROVER_old (gh_stops) + 1)
 ;
 
